@@ -24,7 +24,7 @@ import (
 	"verifharness/l1sync"
 )
 
-var treeNames = []string{"a", "b", "x.git", "team", ".git", "objects", "é", "c.git", "a.git", "refs", "deep"}
+var treeNames = []string{"a", "b", "x.git", "team", ".git", "objects", "é", "c.git", "a.git", "refs", "deep", ".config", ".dot.git", ".hidden"}
 
 func makeTree(r *gen.Rand, dir string, depth int) {
 	n := r.Range(0, 4)
@@ -83,7 +83,7 @@ func discoverTreeCase(t *l1sync.Tool, base string, r *gen.Rand, i int) gen.Case 
 		abs = append(abs, filepath.Join(top, "r0"))
 	}
 	if r.Chance(1, 5) {
-		for _, s := range []string{"team", "a", "deep"} {
+		for _, s := range []string{"team", "a", "deep", ".config"} {
 			p := filepath.Join(abs[0], s)
 			if st, err := os.Stat(p); err == nil && st.IsDir() {
 				abs = append(abs, p)
